@@ -847,6 +847,14 @@ PPL::Grid::is_bounded() const {
   }
   // TODO: Consider using con_sys when gen_sys is out of date.
 
+  // A non-minimized generator system can hold the same point twice
+  // (with different divisors) or null parameters.
+  if (!generators_are_minimized()) {
+    Grid& gr = const_cast<Grid&>(*this);
+    gr.simplify(gr.gen_sys, gr.dim_kinds);
+    gr.set_generators_minimized();
+  }
+
   if (gen_sys.num_rows() > 1) {
     // Check if all generators are the same point.
     const Grid_Generator& first_point = gen_sys[0];
